@@ -599,6 +599,10 @@ func (e *escaper) escapeTemplate(c context, n *parse.TemplateNode) context {
 	return c
 }
 
+// derivedNameInfix separates the name of a template from the description of the context that
+// a copy of it has been analysed for.
+const derivedNameInfix = "$htmltemplate_"
+
 // mangle produces an identifier that includes a suffix that distinguishes it
 // from template names mangled with different contexts.
 func mangle(c context, templateName string) string {
@@ -609,9 +613,9 @@ func mangle(c context, templateName string) string {
 		}
 		// Actions are not allowed in the content of this element: analyse a separate copy
 		// instead of reusing the analysis made for element contents where they are.
-		return templateName + "$htmltemplate_" + c.state.String() + "_" + c.element.String() + "_Invalid"
+		return templateName + derivedNameInfix + c.state.String() + "_" + c.element.String() + "_Invalid"
 	}
-	s := templateName + "$htmltemplate_" + c.state.String()
+	s := templateName + derivedNameInfix + c.state.String()
 	if c.delim != 0 {
 		s += "_" + c.delim.String()
 	}
@@ -673,7 +677,21 @@ func (e *escaper) escapeTree(c context, node parse.Node, name string, line int) 
 			err:   errorf(ErrBadHTML, node, line, "cannot call template %q: %s", name, err),
 		}, name
 	}
+	if strings.Contains(name, derivedNameInfix) && e.ns.set[name] != nil {
+		// A template defined by the program with the name of a context-specific copy
+		// would be used in place of that copy.
+		return context{
+			state: stateError,
+			err:   errorf(ErrNoSuchTemplate, node, line, "template name %q contains %q, which is reserved", name, derivedNameInfix),
+		}, name
+	}
 	dname := mangle(c, name)
+	if dname != name && e.ns.set[dname] != nil {
+		return context{
+			state: stateError,
+			err:   errorf(ErrNoSuchTemplate, node, line, "template name %q contains %q, which is reserved", dname, derivedNameInfix),
+		}, name
+	}
 	e.called[dname] = true
 	if out, ok := e.output[dname]; ok {
 		// Already escaped.
